@@ -13,7 +13,8 @@
     apply_function_t<functor_composition_t>::operator()   `applyComp` / `run`: take the LAST functor, apply it to the first `arity`
                                                   operands, put the result(s) in front of the remaining operands, recurse
     combinator::swap / dup_n / dig_n / bury_n     operand-list rearrangements
-    get_function_composition(view)                `compile`  : function * (composition of each view operand, visited last to first)
+    get_function_composition(view)                `compile`  : function * (composition of each view operand, visited last to first),
+                                                  each operand through the `if constexpr` chain `View.dispatch` (alias / view / number-or-array)
     get_function_operands(view)                   `operandsOf`: leaves of the operands, visited first to last
     get_compute_graph(view)                       `graphOf` over ct_map / ct_digraph (`Graph.addNode` = insert-if-absent, `addEdge`)
 
@@ -144,22 +145,65 @@ structure VFun (A V : Type) where
 def VFun.toFunctor {A V : Type} (f : VFun A V) : Functor A V := ⟨f.arity, fun ats xs => [f.fmap1 ats xs]⟩
 
 mutual
-/-- the view tree: leaves are array occurrences (named by an id = which host array), nodes are view functions.
-    Broadcast views that a ufunc puts around its operands are part of the ufunc node (`get_function_composition`
-    skips them and the ufunc functor re-creates them). -/
+/-- the view tree.  An operand of a view is one of the kinds the extraction code tells apart by type traits
+    (`get_function_composition_t`, function_composition.hpp:46-66,89-125; `get_function_operands_t`, functor.hpp:788-811):
+
+      leaf  i   a host array (pointer / bounded array):          `is_ndarray ∧ ¬is_view`
+      alias i   `view::alias(x_i, id)` of a host array:           `is_view`, `is_same_view<alias_t>`
+      lit   i   a number literal (`add(a, 2)`), held by value:     `is_num ∧ ¬is_view`
+      node      an ARRAY-valued view function of its operands:     `is_view ∧ is_ndarray`
+      snode     a NUMBER-valued view (a reduction over ALL axes, `reduce_add(a, None)`, keepdims false: a 0-d result
+                that broadcasts like a scalar):                     `is_view ∧ is_num`
+
+    `id` = which operand of the program (host array or literal).  Broadcast views that a ufunc puts around its operands
+    are part of the ufunc node (`get_function_composition` looks through them — the dispatch below is applied to what is
+    inside — and the ufunc functor re-creates them). -/
 inductive View (A V : Type) where
   | leaf (id : Nat)
+  | alias (id : Nat)
+  | lit (id : Nat)
   | node (f : VFun A V) (attrs : List A) (args : Args A V)
+  | snode (f : VFun A V) (attrs : List A) (args : Args A V)
 inductive Args (A V : Type) where
   | nil
   | cons (v : View A V) (rest : Args A V)
 end
 
+/-- `meta::is_view_v<operand_t>` -/
+def View.isView {A V : Type} : View A V → Bool
+  | .leaf _ => false | .alias _ => true | .lit _ => false | .node .. => true | .snode .. => true
+/-- `meta::is_same_view_v<view::alias_t, operand_t>` -/
+def View.isAlias {A V : Type} : View A V → Bool
+  | .alias _ => true | _ => false
+/-- `meta::is_num_v<operand_t>`: number literals AND number-valued views -/
+def View.isNum {A V : Type} : View A V → Bool
+  | .lit _ => true | .snode .. => true | _ => false
+/-- `meta::is_ndarray_v<operand_t>` -/
+def View.isNdarray {A V : Type} : View A V → Bool
+  | .leaf _ => true | .alias _ => true | .node .. => true | _ => false
+
+/-- the `if constexpr` chain applied to every operand (after looking through the broadcast_to of a ufunc), with `sub` =
+    `get_function_composition(operand)`:
+      `is_same_view_v<alias_t, operand_t>`                     → `init`                    ("finish")
+      `is_view_v<operand_t>`                                   → `init * sub`
+      `(is_num_v || is_ndarray_v) && !is_view_v`               → `init`
+    (anything else is refused by the `static_assert` in front of the chain: `View.operandKindOk`).  The order of the
+    tests matters: a number-valued view satisfies `is_num_v` too. -/
+def View.dispatch {A V : Type} (v : View A V) (sub : List (Fn A V)) : List (Fn A V) :=
+  if v.isAlias then [] else if v.isView then sub else []
+
+/-- the `static_assert` in front of the chain -/
+def View.operandKindOk {A V : Type} (v : View A V) : Bool :=
+  v.isView || ((v.isNum || v.isNdarray) && !v.isView)
+
 mutual
 /-- host evaluation -/
 def View.denote {A V : Type} (env : Nat → V) : View A V → V
   | .leaf i => env i
+  | .alias i => env i
+  | .lit i => env i
   | .node f ats args => f.fmap1 ats (Args.denote env args)
+  | .snode f ats args => f.fmap1 ats (Args.denote env args)
 def Args.denote {A V : Type} (env : Nat → V) : Args A V → List V
   | .nil => []
   | .cons v rest => View.denote env v :: Args.denote env rest
@@ -169,18 +213,25 @@ mutual
 /-- `get_function_composition`: `function * sub-composition(operand N-1) * … * sub-composition(operand 0)` -/
 def View.compile {A V : Type} : View A V → List (Fn A V)
   | .leaf _ => []
+  | .alias _ => []
+  | .lit _ => []
   | .node f ats args => ⟨f.toFunctor, ats, []⟩ :: Args.compileRev args
-/-- sub-compositions of the operands, visited from the last operand to the first -/
+  | .snode f ats args => ⟨f.toFunctor, ats, []⟩ :: Args.compileRev args
+/-- sub-compositions of the operands, visited from the last operand to the first, each through the operand dispatch -/
 def Args.compileRev {A V : Type} : Args A V → List (Fn A V)
   | .nil => []
-  | .cons v rest => Args.compileRev rest ++ View.compile v
+  | .cons v rest => Args.compileRev rest ++ View.dispatch v (View.compile v)
 end
 
 mutual
-/-- `get_function_operands`: leaves, operands visited first to last (ids of the host arrays, one per occurrence) -/
+/-- `get_function_operands`: leaves, operands visited first to last (ids of the host arrays / literals, one per occurrence);
+    a view operand (`is_view_v`: alias, array- or number-valued view) is descended into, anything else is appended -/
 def View.operandsOf {A V : Type} : View A V → List Nat
   | .leaf i => [i]
+  | .alias i => [i]
+  | .lit i => [i]
   | .node _ _ args => Args.operandsOf args
+  | .snode _ _ args => Args.operandsOf args
 def Args.operandsOf {A V : Type} : Args A V → List Nat
   | .nil => []
   | .cons v rest => View.operandsOf v ++ Args.operandsOf rest
@@ -190,17 +241,23 @@ def Args.length {A V : Type} : Args A V → Nat
   | .nil => 0
   | .cons _ rest => 1 + rest.length
 
+/-- a view function applied to nothing but host arrays / aliases / literals -/
+def View.isLeaf {A V : Type} : View A V → Bool
+  | .leaf _ => true | .alias _ => true | .lit _ => true | _ => false
+
 def Args.allLeaves {A V : Type} : Args A V → Bool
   | .nil => true
-  | .cons (.leaf _) rest => rest.allLeaves
-  | .cons (.node ..) _ => false
+  | .cons v rest => v.isLeaf && rest.allLeaves
 
 mutual
 /-- the trees on which extraction is right: every node has as many operands as its arity and only its FIRST operand
-    may itself be a view -/
+    may itself be a view (array- or number-valued) -/
 def View.leftLinear {A V : Type} : View A V → Bool
   | .leaf _ => true
+  | .alias _ => true
+  | .lit _ => true
   | .node f _ args => (args.length == f.arity) && Args.leftLinear args
+  | .snode f _ args => (args.length == f.arity) && Args.leftLinear args
 def Args.leftLinear {A V : Type} : Args A V → Bool
   | .nil => true
   | .cons v rest => View.leftLinear v && rest.allLeaves
@@ -210,7 +267,10 @@ mutual
 /-- every node has as many operands as its arity (what the view constructors guarantee); sub-views in any position -/
 def View.wellFormed {A V : Type} : View A V → Bool
   | .leaf _ => true
+  | .alias _ => true
+  | .lit _ => true
   | .node f _ args => (args.length == f.arity) && Args.wellFormed args
+  | .snode f _ args => (args.length == f.arity) && Args.wellFormed args
 def Args.wellFormed {A V : Type} : Args A V → Bool
   | .nil => true
   | .cons v rest => View.wellFormed v && Args.wellFormed rest
@@ -220,17 +280,23 @@ mutual
 /-- SPEC of the operand list: leaves in reading order, by an accumulator passed right to left (independent of `operandsOf`) -/
 def View.leavesAcc {A V : Type} : View A V → List Nat → List Nat
   | .leaf i, acc => i :: acc
+  | .alias i, acc => i :: acc
+  | .lit i, acc => i :: acc
   | .node _ _ args, acc => Args.leavesAcc args acc
+  | .snode _ _ args, acc => Args.leavesAcc args acc
 def Args.leavesAcc {A V : Type} : Args A V → List Nat → List Nat
   | .nil, acc => acc
   | .cons v rest, acc => View.leavesAcc v (Args.leavesAcc rest acc)
 end
 
 mutual
-/-- number of operations in a view tree -/
+/-- number of operations in a view tree (array- and number-valued views alike) -/
 def View.nOps {A V : Type} : View A V → Nat
   | .leaf _ => 0
+  | .alias _ => 0
+  | .lit _ => 0
   | .node _ _ args => 1 + Args.nOps args
+  | .snode _ _ args => 1 + Args.nOps args
 def Args.nOps {A V : Type} : Args A V → Nat
   | .nil => 0
   | .cons v rest => View.nOps v + Args.nOps rest
